@@ -216,7 +216,7 @@ def hreqOp (args : List String) : String :=
     let reg : List Bytes := [Gen.compressionGzip, "rle".toUTF8.toList]
     let acc : Bytes := ((kv' args "acc").bind hexArg').getD []
     match preCheck p reg sent acc tmo with
-    | .reject code => if kind == "unary" then s!"norun:{code}" else s!"pre=reject:{code}"
+    | .reject code => if kind == "unary" || kind == "server" then s!"norun:{code}" else s!"pre=reject:{code}"
     | .run hasPool =>
       let cfg : ReaderCfg Bytes := { codec := rawCodec, pool := if hasPool then some rleCompressor else none, max := max }
       let src : Src := { flat := flat, tail := tail }
@@ -227,15 +227,14 @@ def hreqOp (args : List String) : String :=
           | some code => s!"norun:{code}"
           | none => s!"pre=run recv={hexOut' v} end=eof"
         | (none, e) => s!"norun:{showEnd e}"
-      else if kind == "unary" then
-        -- one Receive: the first message only
-        match handlerRecvStream p tableParsers cfg src with
-        | (v :: _, _) =>
-          match unaryGate p tmo with
+      else if kind == "unary" || kind == "server" then
+        -- receiveUnaryRequest: the message, then the end of the request side
+        match singleRequest (handlerRecvStream p tableParsers cfg src) with
+        | .inl v =>
+          match (if kind == "unary" then unaryGate p tmo else none) with
           | some code => s!"norun:{code}"
           | none => s!"pre=run recv={hexOut' v} end=eof"
-        | ([], .eof) => s!"norun:{codeUnknown}"   -- NewError(CodeUnknown, io.EOF) goes on the wire
-        | ([], e) => s!"norun:{showEnd e}"
+        | .inr code => s!"norun:{code}"
       else
         let r := handlerRecvStream p tableParsers cfg src
         let msgs := if r.1.isEmpty then "none" else ",".intercalate (r.1.map hexOut')
